@@ -1,9 +1,45 @@
 import Iox2.Model.ReqRes
 import Driver.Util
 namespace Driver.ReqResD
-open Driver
+open Iox2.ReqRes Driver
+open Iox2.PubSub (clamp1)
 
-def stepLine (s : Unit) (_t : List String) : Unit × String := (s, "unimplemented")
+def optNat (s : String) : Option Nat := if s = "-" then none else some (nat! s)
 
-def comp : Comp := { σ := Unit, init := (), step := stepLine }
+def parse (t : List String) : Option Op :=
+  match t with
+  | ["cclient", c, m] => some (.cclient (nat! c) (optNat m))
+  | ["dclient", c] => some (.dclient (nat! c))
+  | ["cserver", s, m] => some (.cserver (nat! s) (optNat m))
+  | ["dserver", s] => some (.dserver (nat! s))
+  | ["send", c, r, tag] => some (.send (nat! c) (nat! r) (nat! tag))
+  | ["recvreq", s, a] => some (.recvreq (nat! s) (nat! a))
+  | ["respond", s, a, tag] => some (.respond (nat! s) (nat! a) (nat! tag))
+  | ["dactive", s, a] => some (.dactive (nat! s) (nat! a))
+  | ["recvresp", c, r] => some (.recvresp (nat! c) (nat! r))
+  | ["dresp", c, k] => some (.dresp (nat! c) (nat! k))
+  | ["dpending", c, r] => some (.dpending (nat! c) (nat! r))
+  | ["connected", c, r] => some (.connected (nat! c) (nat! r))
+  | ["aconnected", s, a] => some (.aconnected (nat! s) (nat! a))
+  | ["hint", c, r] => some (.hint (nat! c) (nat! r))
+  | ["ahint", s, a] => some (.ahint (nat! s) (nat! a))
+  | ["has", c, r] => some (.has (nat! c) (nat! r))
+  | ["hasreq", s] => some (.hasreq (nat! s))
+  | ["upd", "c", c] => some (.updC (nat! c))
+  | ["upd", "s", s] => some (.updS (nat! s))
+  | _ => none
+
+def stepLine (w : Option World) (t : List String) : Option World × String :=
+  match t with
+  | ["new", _variant, mc, ms, a, b, r, ovq, ovr, ff, l, ecb, scb] =>
+      (some (World.init { maxClients := clamp1 (nat! mc), maxServers := clamp1 (nat! ms), maxActive := clamp1 (nat! a),
+                          respBuf := clamp1 (nat! b), maxBorrow := clamp1 (nat! r), ovReq := ovq = "1", ovResp := ovr = "1",
+                          ff := ff = "1", maxLoans := clamp1 (nat! l), cExpired := nat! ecb, sExpired := nat! scb }), "ok")
+  | _ =>
+    match w, parse t with
+    | none, _ => (none, "no-world")
+    | _, none => (w, "bad-op")
+    | some w, some op => let (w', out) := step w op; (some w', out)
+
+def comp : Comp := { σ := Option World, init := none, step := stepLine }
 end Driver.ReqResD
